@@ -83,7 +83,7 @@ func (m *Monitor) Check(prop string, op Op, ok bool, prev, cur Snap) {
 	for _, p := range cur.Problems {
 		m.fail(prop+":store:"+p, "%s", p)
 	}
-	m.common(op, ok, prev, cur)
+	m.common(prop, op, ok, prev, cur)
 	if prop == "C05" {
 		m.c05(op, ok, prev, cur)
 	} else {
@@ -93,10 +93,18 @@ func (m *Monitor) Check(prop string, op Op, ok bool, prev, cur Snap) {
 }
 
 // identifiers: counters never go back, new records carry the counter's value
-func (m *Monitor) common(op Op, ok bool, prev, cur Snap) {
+func (m *Monitor) common(prop string, op Op, ok bool, prev, cur Snap) {
 	for i := 0; i < 3; i++ {
 		if cur.Ctr[i] < prev.Ctr[i] {
 			m.fail("C05:counter-decreased", "sequence counter %d went from %d to %d", i, prev.Ctr[i], cur.Ctr[i])
+		}
+	}
+	// an execution the contract admits (height < timeout, nonce above the last executed one, heights in order)
+	// must still find its batch: otherwise the batch's transfers were handed back (refundable) although the
+	// external chain has paid them out
+	if op.Kind == "BatchExecuted" && !ok && op.H > 0 {
+		if bi, known := m.batchTO[op.Nonce]; known && bi.token == op.Token && op.H < bi.timeout && op.Nonce > m.lastExec[op.Token] && op.H >= m.maxH && bi.gone != "executed" {
+			m.fail(prop+":batch-executed-and-released", "batch %d (timeout %d) executed externally at height %d had already been released on fxcore (its transfers went back to the pool)", op.Nonce, bi.timeout, op.H)
 		}
 	}
 	if !ok {
@@ -309,7 +317,11 @@ func (m *Monitor) c06(op Op, ok bool, prev, cur Snap) {
 		}
 	}
 	if observing(op) && ok && cur.Ext != op.H {
-		m.fail("C06:height-not-from-claim", "event at %d observed but the stored height is %d", op.H, cur.Ext)
+		if op.Dissent != 0 && cur.Ext == op.Dissent {
+			m.fail("C06:height-from-single-oracle", "two of three oracles reported the event at height %d, one at %d: the stored observed height is %d", op.H, op.Dissent, cur.Ext)
+		} else {
+			m.fail("C06:height-not-from-claim", "event at %d observed but the stored height is %d", op.H, cur.Ext)
+		}
 	}
 	// nothing batched / queued for execution before an external height was observed
 	if cur.Ext == 0 && (len(cur.Batches) > 0 || len(cur.Calls) > 0) {
@@ -360,13 +372,6 @@ func (m *Monitor) c06(op Op, ok bool, prev, cur Snap) {
 		}
 		if info := m.calls[p.Nonce]; info != nil && info.resultSeen == 1 {
 			m.fail("C06:bridgecall:refund-after-observed-success", "bridge call %d (timeout %d) refunded at observed height %d although its successful external execution (height < timeout) had already been observed and parked", p.Nonce, p.Timeout, op.H)
-		}
-	}
-	// an execution the contract admits (height < timeout, nonce above the last executed one, heights in order)
-	// must still find its batch
-	if op.Kind == "BatchExecuted" && !ok && op.H > 0 {
-		if bi, known := m.batchTO[op.Nonce]; known && bi.token == op.Token && op.H < bi.timeout && op.Nonce > m.lastExec[op.Token] && op.H >= m.maxH && bi.gone != "executed" {
-			m.fail("C06:batch-executed-and-released", "batch %d (timeout %d) executed externally at height %d was already released on fxcore (%s)", op.Nonce, bi.timeout, op.H, bi.gone)
 		}
 	}
 }
